@@ -13,6 +13,8 @@ C17.f an unreadable index file fails the construction of the index (no partial i
   propagated (R-ERRITER item rule, shared with C05.f).
 C17.e reduced modes: Ids answers has() but never get_id(); None answers neither.
 Witness (thorough tier): Repository<IndexedIdsStatus>::get_index_entry does not type-check.
+C17.h every entry is filed under the blob's OWN type (D23, known finding): the EnumMap bucket selected right in front of the push
+  of an entry is indexed by the blob's `tpe`, not by the pack-level IndexPack::blob_type() - index files may list mixed packs.
 """
 import re
 from rules.common import *
@@ -297,6 +299,28 @@ def run(ctx, rep):
                   what=f"{fn_key(b)}: the packs vector of the built TypeIndex is the collected one, element for element" if not moved else
                        f"{fn_key(b)}: the packs vector is filtered / de-duplicated / reordered ({[c.rsplit('::', 2)[-2] + '::' + c.rsplit('::', 1)[-1] for c in moved]}) after the entries recorded their pack_idx: entries of later packs point at another pack")
     rep.floor("C17.b", "TypeIndex constructions with a collected packs vector", n_pk, 1)
+    # C17.h every entry is filed under ITS OWN blob type: the bucket selected for the push of an entry (SortedEntry / BlobId)
+    # derives from the blob's `tpe` field, not from a pack-level type (the type of the pack's first blob) - index files may
+    # list packs that mix tree and data blobs (old restic versions wrote them; fixture repo-mixed.tar.gz)
+    rep.rule("C17.h", "an index entry is filed under the blob's own type, also for packs mixing both types")
+    ent_push = [(bb, t) for bb, t in EXT.calls() if "callee" in t and callee(t).endswith("Vec::<T, A>::push") and re.search(r"SortedEntry|blob::BlobId", " ".join(str(x) for x in [t.get("generics", ""), callee_decl(t), t.get("callee_full", "")]) + " " + json_of(t))]
+    rep.require("C17.h", "extend/entry-pushes", len(ent_push) >= 1, where=EXT.loc(), what="IndexCollector::extend pushes one entry per listed blob")
+    imuts = [(cb, ct) for cb, ct in EXT.calls() if "callee" in ct and re.search(r"IndexMut<K> for enum_map::EnumMap<K, V>>::index_mut$|Index<K> for enum_map::EnumMap<K, V>>::index$", callee(ct))]
+    back_ = C.back_edges(EXT)
+    for n_, (bb, t) in enumerate(ent_push, 1):
+        # the EnumMap indexing that selects the bucket of this push: the closest one in front of it
+        others = {cb for cb, _ in imuts}
+        sel = [(cb, ct) for cb, ct in imuts if bb in EXT.reachable_from(cb, cut_blocks=others - {cb}, cut_edges=back_)]
+        by_blob = by_pack = False
+        for cb, ct in sel:
+            e_ = flow.expr_of(EXT, ct["args"][1], cb)
+            flds_, cls_ = flow.expr_mentions(e_)
+            by_blob = by_blob or "tpe" in flds_
+            by_pack = by_pack or any(c.endswith("IndexPack::blob_type") for c in cls_)
+        okb = bool(sel) and by_blob and not by_pack
+        rep.check("C17.h", f"extend/entry-bucket-by-blob-type/{n_}", okb, where=where(EXT, bb),
+                  what="the bucket an entry is pushed into is selected by the blob's own type" if okb else
+                       "the bucket an entry is pushed into is selected by IndexPack::blob_type() - the type of the pack's FIRST blob - and the blob's own `tpe` is ignored: a tree blob listed in a pack that starts with a data blob is filed under Data, so get_id(Tree, id) / has_tree(id) miss it although an index file lists it")
     # total_size(type) answers from the bucket of the requested type only
     TS = prog.bodies.get(f"<{BS}Index as rustic_core::index::ReadIndex>::total_size")
     if TS is not None:
@@ -388,3 +412,11 @@ def run_witness(ctx, rep):
         rep.check("C17.w", f"witness/{name}", res == "ok", where="witness/src/lib.rs", what=f"doctest {name}{' (must fail to compile with E0599)' if cf else ' (compiling twin)'}: {res}")
     twin_ok = "FAILED" not in out and r.returncode == 0
     rep.check("C17.w", "witness/all", twin_ok, where="witness/src/lib.rs", what="all witnesses and their compiling twins behave as expected")
+
+
+def json_of(t):
+    import json as _j
+    try:
+        return _j.dumps(t)
+    except Exception:
+        return str(t)
